@@ -466,6 +466,7 @@ func coveringDesign() *dg.Design {
 	coveringMapParams(add)
 	coveringPatterns(add)
 	coveringViews(add)
+	coveringWave4(add)
 	rt1 := func(verb, p string) []dg.Route { return []dg.Route{{Verb: verb, Path: p}} }
 
 	// catch-all pairs: same literal prefix, different verbs, different wildcard names
@@ -576,6 +577,7 @@ func coveringFixed(prop string) []witnessCase {
 	cs = append(cs, wave3Cases(prop)...)
 	cs = append(cs, patternCases(prop)...)
 	cs = append(cs, viewCases(prop)...)
+	cs = append(cs, wave4Cases(prop)...)
 	return cs
 }
 
